@@ -1,1 +1,7 @@
 import DhcpProofs.Lemmas.Basic
+import DhcpProofs.Lemmas.V4Opts
+import DhcpProofs.Lemmas.V4Marshal
+import DhcpProofs.Lemmas.V4Dec
+import DhcpProofs.Lemmas.V4RoundTrip
+import DhcpProofs.Facts.V4Codec
+import DhcpProofs.Props.C01
